@@ -37,6 +37,9 @@ DONE = {
  "C19": ("property-based testing of defining equations over generated asymmetric, well-conditioned arguments (proptest, sharded)",
          "Exploration: tens of thousands (quick) / millions (thorough) of generated planes, points, tetrahedra, triangles, spheres with magnitudes 1e-3..1e6 and deliberately asymmetric coordinates; every exported helper checked against its defining equation.",
          "Trusted: tolerances scaled by magnitude and conditioning (stated in the rule).", "5 C19"),
+ "C17": ("property-based model testing: the drained candidate iterator (hook nn_sequence) against the model 'sort all images by distance' (proptest, sharded)",
+         "Exploration: point sets of 1..2500 (quick) / 10^4 (thorough) generators (uniform, clustered, lattices with many equidistant candidates, boundary, ...), all dimensionalities and box shapes, periodic or not, 4-6 query generators per set incl. first/last/closest to the seam; completeness as exact multiset equality, order up to rounding of the heap keys, shift encoding bitwise.",
+         "Trusted: the hook returns the very iterators ConvexCell::build consumes (thin wrapper, see verif_hooks.rs); order tolerance 8 u L on positions.", "5 C17"),
 }
 NOT_YET = "check under construction (work in progress; see DESIGN.md section 5)"
 ALL = ["C%02d" % i for i in range(1, 21)]
